@@ -143,6 +143,70 @@ Proof.
   rewrite Hu. cbn [bind]. eexists. reflexivity.
 Qed.
 
+(* update_field: the same for the message that changes fields of the running program.  Success is
+   exactly: every name controllable and at most 255 of them; the one message carries the flow id
+   and the requested (register, value) pairs, values and order as given *)
+Theorem update_field_succeeds sc sid fields bytes :
+  update_field_msg sc sid fields = Ok bytes ->
+  forallb (controllable sc) (map fst fields) = true /\
+  N.of_nat (length fields) <= 255 /\
+  exists l ups,
+    map snd l = map snd fields /\
+    Forall2 (fun f rv => sc_get sc (fst f) = Some (fst rv)) fields l /\
+    ser_updates l = Ok ups /\
+    bytes = ser_header T_UPDATE (12 + 13 * N.of_nat (length fields)) sid ++
+            enc_le 4 (N.of_nat (length fields)) ++ ups.
+Proof.
+  unfold update_field_msg.
+  pose proof (resolve_all_spec sc fields) as Hs.
+  destruct (resolve_all sc fields) as [l| |]; cbn [bind]; try discriminate.
+  destruct Hs as (Hc & Hv & Hr).
+  assert (Hlen : length l = length fields).
+  { apply (f_equal (@length N)) in Hv. rewrite !map_length in Hv. exact Hv. }
+  rewrite Hlen.
+  destruct (255 <? N.of_nat (length fields)) eqn:E255; [discriminate|].
+  unfold serialize_update, serialize_gen.
+  destruct (65535 <? 12 + 13 * N.of_nat (length fields)); [discriminate|].
+  destruct (ser_updates l) as [ups| |] eqn:Eu; cbn [bind]; try discriminate.
+  intros H; inversion H; subst; clear H.
+  split; [exact Hc|]. split; [apply N.ltb_ge; exact E255|].
+  exists l, ups. auto.
+Qed.
+
+Theorem update_field_accepts sc sid fields :
+  control_encodable sc ->
+  forallb (controllable sc) (map fst fields) = true ->
+  N.of_nat (length fields) <= 255 ->
+  exists bytes, update_field_msg sc sid fields = Ok bytes.
+Proof.
+  intros Henc Hc Hlen. unfold update_field_msg.
+  pose proof (resolve_all_spec sc fields) as Hs.
+  destruct (resolve_all sc fields) as [l| |]; cbn [bind]; [|congruence|contradiction].
+  destruct Hs as (_ & Hv & Hr).
+  assert (Hl : length l = length fields).
+  { apply (f_equal (@length N)) in Hv. rewrite !map_length in Hv. exact Hv. }
+  destruct (ser_updates_ok _ Henc _ _ Hr Hc) as (ups & Hu).
+  rewrite Hl.
+  replace (255 <? N.of_nat (length fields)) with false by (symmetry; apply N.ltb_ge; exact Hlen).
+  unfold serialize_update, serialize_gen.
+  replace (65535 <? 12 + 13 * N.of_nat (length fields)) with false by (symmetry; apply N.ltb_ge; lia).
+  rewrite Hu. cbn [bind]. eexists. reflexivity.
+Qed.
+
+(* more than 255 fields cannot be counted in the message's 8-bit field: refused, whatever they are *)
+Theorem update_field_too_many sc sid fields :
+  255 < N.of_nat (length fields) -> update_field_msg sc sid fields = Err.
+Proof.
+  intros Hlen. unfold update_field_msg.
+  pose proof (resolve_all_spec sc fields) as Hs.
+  destruct (resolve_all sc fields) as [l| |]; cbn [bind]; [|reflexivity|contradiction].
+  destruct Hs as (_ & Hv & _).
+  assert (Hl : length l = length fields).
+  { apply (f_equal (@length N)) in Hv. rewrite !map_length in Hv. exact Hv. }
+  rewrite Hl. replace (255 <? N.of_nat (length fields)) with true by (symmetry; apply N.ltb_lt; exact Hlen).
+  reflexivity.
+Qed.
+
 (* ---------- C12 ---------- *)
 
 Theorem get_field_stale rep_uid fields sc_uid sc n :
